@@ -187,7 +187,7 @@ DocWrite(d, b, g) == /\ CanWrite(d, b)
 DocDelete(d, b) == /\ docs[d][b].st = "live"
                    /\ ImplDoc(d, NewBDelete(d, b), b) /\ GhostDoc(d, NewBDelete(d, b)) /\ Track
                    /\ Step([a |-> "DocDelete", d |-> d, b |-> b])
-DocConflict(d, hi, g) == /\ docs[d][1].st # "none" /\ docs[d][2].st = "none" /\ docs[d][1].gen >= 2
+DocConflict(d, hi, g) == /\ docs[d][1].st # "none" /\ docs[d][2].st = "none"
                          /\ ImplDoc(d, NewBConflict(d, hi, g), 2) /\ GhostDoc(d, NewBConflict(d, hi, g)) /\ Track
                          /\ Step([a |-> "DocConflict", d |-> d, hi |-> hi, g |-> g])
 Invalidate == /\ SplitWrite /\ pend # NoPend
